@@ -15,6 +15,7 @@ def check(run):
     flags = p.const('tdda.rexpy.rexpy', 'RE_FLAGS')
     anchor(run, p)
     tag(run, p)
+    tagfree(run, p)
     quant(run, p, I, flags)
     esc(run, p)
     run.rules['C13-ESC'] = run.rules.pop('C03-ESC')
@@ -37,6 +38,52 @@ def check(run):
                       'every example handed to the extractor is a value that is present: an expression learnt from a categorical '
                       'column\'s unused declared level (.cat.categories, unfiltered value_counts()) matches none of the examples')
     run.floor('C13-OBSERVED', n, 8)
+
+
+def tagfree(run, p):
+    from .common import dep_closure, names_in
+    run.rule('C13-TAGFREE', 'which expressions are kept never depends on how they are written: on the extraction path (everything '
+                            'reachable from Extractor.extract / __init__) the rendered expressions - whose text differs between tagged '
+                            'and untagged runs - are only matched against strings or returned, never sorted, compared or ranked as text '
+                            '(no sort / sorted / min / max / terminate_patterns_and_sort over values derived from results.rex)')
+    ex = p.cls('Extractor')
+    seen = p.reach([p.method('Extractor', 'extract'), p.method('Extractor', '__init__')])
+    n = 0
+    done = set()
+    for (qn, ctx) in seen:
+        if qn in done:
+            continue
+        done.add(qn)
+        f = p.funcs[qn]
+        if f.mod.name != 'tdda.rexpy.rexpy' or isinstance(f.node, ast.Lambda):
+            continue
+        n += 1
+        bad = []
+        for x in p.own_nodes(f):
+            if not isinstance(x, ast.Call):
+                continue
+            nm = norm(x.func).split('.')[-1]
+            args = list(x.args) + ([x.func.value] if isinstance(x.func, ast.Attribute) and nm == 'sort' else [])
+            if nm not in ('sorted', 'sort', 'min', 'max', 'terminate_patterns_and_sort'):
+                continue
+            src = set()
+            direct = False
+            for a in args:
+                src |= names_in(a)
+                direct = direct or any(isinstance(y, ast.Attribute) and y.attr == 'rex' for y in ast.walk(a))
+            clo = dep_closure(f.node, src) | src
+            via = any(isinstance(s, ast.Assign) and any(isinstance(t, ast.Name) and t.id in clo for t in ast.walk(s.targets[0]))
+                      and any(isinstance(y, ast.Attribute) and y.attr == 'rex' for y in ast.walk(s.value))
+                      for s in p.own_nodes(f))
+            if direct or via:
+                bad.append(x)
+        if not bad:
+            run.ob('C13-TAGFREE', '%s::%s' % (f.rel, f.short), True, 'does not order or rank rendered expressions', fn=f, nontrivial=False)
+        for x in bad:
+            run.ob('C13-TAGFREE', '%s::%s::%s' % (f.rel, f.short, norm(x)[:50]), False,
+                   '%s orders rendered expressions as text (%s): with capture groups "(" sorts differently from "[" or a literal, so '
+                   'tagging can change which expressions survive' % (f.short, norm(x)[:60]), fn=f, node=x)
+    run.floor('C13-TAGFREE', n, 40)
 
 
 def anchor(run, p):
